@@ -2,8 +2,8 @@
   Client side of the tag-list / data-type upload (logix_driver.py): `_parse_instance_attribute_list`
   (symbol records of a Get_Instance_Attribute_List reply) and `_parse_template_data` /
   `_parse_template_data_member_info` (a structure definition read from the template object).
-  Names are sequences of code points; bytes above 0x7F in template names are outside the model
-  (the real code decodes them as UTF-8 with replacement), see `Ascii`.
+  Names are sequences of code points; template and member names are decoded as UTF-8 with replacement
+  (`PyStr.utf8Replace`), as the real code does.
 -/
 import PycommModel.Logix.Services
 import PycommModel.Codec
@@ -132,7 +132,7 @@ def buildMembers (predefine : Bool) : Nat → List Name → List (Nat × Nat × 
 def parseTemplate (count symbolType : Nat) (data : Bytes) : R PTemplate := do
   let infoLen := count * 8
   let infos ← (chunks8 count (data.take infoLen)).mapM parseMemberInfo
-  let names := (splitNul (data.drop infoLen)).map fun b => b.map (·.toNat)
+  let names := (splitNul (data.drop infoLen)).map PyStr.utf8Replace
   let (tname, mnames) := splitNames none names
   let ty := symbolType % 4096
   let predefine := ty < 0x100 || ty > 0xEFF
